@@ -51,7 +51,7 @@ func replayStream(prop string, o runOpts, timeInScope bool, requireSuccess bool,
 	}
 	defer d.close()
 	w := newWorld(d)
-	timeQuirksInScope = timeInScope
+	_ = timeInScope // every stream is in scope of every stream property since the C12 defects were repaired
 	rs := readerSpec{Data: c.Stream.bytes(), Sched: c.Sched, Ewd: c.Ewd}
 	sets := []optSet{{}}
 	if len(c.Options) == 3 {
